@@ -995,6 +995,9 @@ def aux_one(vctx, mon, check, ctxspec, e_json, extra=None):
                 for t in subs[:25] + [e_sh]:
                     if sub_bounds_escape(t, ctxspec, conds, conds_obj, rng):
                         key = 'interval:wrong-bounds-for-' + (t[1] if t[0] in ('f', 'op') else t[0])
+                        if t[0] == 'op' and t[1] == '^':
+                            # which power, over what kind of base: the recorded finding is about specific exponents
+                            key += ':' + power_class(t, conds, rng)
                         break
             aux_violation(vctx, key, 'get_bounds_for_expr(%s) under %s = %s%s, %s%s but value %s at %s (%d of %d samples outside)' % (
                 O.show(e_sh)[:150], ctxspec.get('conds'), '(' if lopen else '[', O.show(lo_sh), O.show(hi_sh), ')' if ropen else ']',
@@ -1068,6 +1071,41 @@ def normalize_culprit(e_sh, conds_obj, conds, rng, budget, per_eval):
         if r2['verdict'] == 'violated':
             return (t[1] if t[0] in ('f', 'op') else t[0]), r2.get('what'), t, nt_sh
     return None
+
+
+def power_class(t, conds, rng):
+    """'<exponent>:<sign class of the base over the admissible draws>' for a power term (op ^ base exponent)"""
+    from mpmath import mp
+    base, expo = t[2], t[3]
+    ex = O.show(expo).replace(' ', '') if not O.free_vars(expo) else 'variable'
+    if len(ex) > 8:
+        ex = 'compound'
+    lo = hi = None
+    with mp.workdps(30):
+        ev = O.Ev({}, 50000)
+        fvs = O.free_vars(base)
+        for i in range(60):
+            env = O.draw_env(fvs, conds, rng, {}, (), tries=10, special=(i % 4 == 0)) if fvs else {}
+            if env is None:
+                continue
+            try:
+                ev.n = 0
+                v = ev.ev(base, env)
+            except O.NotEvaluable:
+                continue
+            lo = v if lo is None or v < lo else lo
+            hi = v if hi is None or v > hi else hi
+            if not fvs:
+                break
+    if lo is None:
+        cls = 'base-not-evaluable'
+    elif lo >= 0:
+        cls = 'base-nonnegative'
+    elif hi <= 0:
+        cls = 'base-nonpositive'
+    else:
+        cls = 'base-straddles-zero:%s' % ('left-end-farther' if -lo > hi else 'right-end-farther-or-equal')
+    return ex + ':' + cls
 
 
 def sub_bounds_escape(t, ctxspec, conds, conds_obj, rng):
@@ -1156,6 +1194,17 @@ def run_aux(vctx, mon, count):
             elif which == 'bounds':
                 e = bounds_expr(rng, rng.choice([1, 2, 2, 3]))
                 aux_one(vctx, mon, 'bounds', {'conds': list(rng.choice(BOUND_CONDS))}, O.jsonable(O.to_shadow(P(e))))
+                # directed interval arithmetic: one operation on a linear image of x, over a range taken from a
+                # systematic family (either end may be the one farther from zero, open or closed, touching zero)
+                ends = ['-3', '-2', '-1', '-1/2', '0', '1/2', '1', '2', '3']
+                ia, ib = sorted(rng.sample(range(len(ends)), 2))
+                conds_d = ['x %s %s' % (rng.choice(['>', '>=']), ends[ia]), 'x %s %s' % (rng.choice(['<', '<=']), ends[ib])]
+                lin = rng.choice(['x', 'x', 'x + 1', 'x - 1', '2 * x', '-x', 'x / 2', 'x - 1/2'])
+                opx = rng.choice(['(%s) ^ 2', '(%s) ^ 2', '(%s) ^ 2', '(%s) ^ 3', '(%s) ^ 4', 'abs(%s)', '(%s) * (%s)', '-((%s) ^ 2)',
+                                  '1 - (%s) ^ 2', '(%s) ^ 2 - 4', 'sqrt((%s) ^ 2)', 'exp(%s)', '(%s) * x'])
+                e_d = opx % ((lin,) * opx.count('%s'))
+                vctx.count('aux_bounds_directed')
+                aux_one(vctx, mon, 'bounds', {'conds': conds_d}, O.jsonable(O.to_shadow(P(e_d))))
             else:
                 for j in range(6):
                     if produced and rng.random() < 0.7:
